@@ -588,6 +588,14 @@ func (self PathNode) CopyTo(to *PathNode) {
 	for i, c := range self.Next {
 		c.CopyTo(&to.Next[i])
 	}
+	// NOTICE: the by-hash lookups probe the whole capacity: what a reused destination held behind the copied children
+	// must not be found there
+	rest := to.Next[len(to.Next):cap(to.Next)]
+	for i := range rest {
+		rest[i].Path = Path{}
+		rest[i].Node = Node{}
+		rest[i].Next = rest[i].Next[:0]
+	}
 }
 
 // ResetValue resets self's node and its children's node
